@@ -28,7 +28,7 @@ ASSUMPTIONS = ["guaranteed region without corner_safe = voxel centres within (mi
 
 def make_tomo(d):
     t = gen.smooth_noise(d["seed"], d["tshape"], sigma=d["sigma"])
-    return t
+    return t.astype(d.get("tdtype", "float32"))  # the reference interpolates these (rounded) values in float64
 
 
 def as_input(t, d):
@@ -235,7 +235,8 @@ def cases(draw):
     scale = draw(st.sampled_from([1.0, 0.5, 2.0, 0.3, 1.1, 0.2634, 1.37, 3.3])) if exact else draw(gen.scales)
     return {"tshape": tshape, "seed": draw(gen.seeds), "sigma": draw(st.sampled_from([0.6, 1.0, 1.5])),
             "shape": shape, "order": order, "scale": scale, "corner_safe": draw(st.booleans()),
-            "mols": mols, "chunks": chunks, "kind": kind, "exact": exact}
+            "mols": mols, "chunks": chunks, "kind": kind, "exact": exact,
+            "tdtype": draw(st.sampled_from(["float32", "float32", "float32", "float64", "float16"]))}
 
 
 def nontrivial(d):
@@ -250,6 +251,7 @@ def labels(d):
     labs.add(f"kind:{d['kind']}")
     labs.add("corner_safe" if d["corner_safe"] else "not-corner_safe")
     labs.add("tomo:dask" if d["chunks"] else "tomo:numpy")
+    labs.add("dtype:" + d.get("tdtype", "float32"))
     if d["exact"] and d["kind"] == "interior":
         labs.add("exact-block-class")
     for m in d["mols"]:
